@@ -7,7 +7,7 @@ from ..core import Sub
 PROP = {
     "id": "C18",
     "level": "exploration",
-    "technique": "Hypothesis-generated blocks (3D, force/torque, EMG, events) with labels from a tiny alphabet (duplicates, empty, case and blank variants) x systematic key sets; oracle: the five access paths are compared with the plain list of iterated items",
+    "technique": "Hypothesis-generated blocks (3D, force/torque, EMG, events) with labels from a tiny alphabet (duplicates, empty, case and blank variants) x systematic key sets; oracle: the five access paths are compared with the plain list of iterated items; the block object's whole attribute state is compared around the read-only phase, which runs with ASCII-only / closed / absent standard streams in rotation",
     "level_text": ("Exploration: for each generated block every integer in [-n-2, n+1], every label of a small closed alphabet (present, absent, "
                    "near-miss), every item and a set of foreign key types is tried; results are compared with the list obtained by "
                    "iteration, and the block's encoding must be unchanged afterwards."),
